@@ -43,6 +43,16 @@ type Contract struct {
 	File      string
 	Line      int
 	Lets      []LetDef
+	Asserts   []*AssertAt
+}
+
+// AssertAt is a program-point assertion: checked in the state just before the Ord-th call
+// (source order) to a callee whose short name is Callee; locals are resolved by name.
+type AssertAt struct {
+	Callee string
+	Ord    int
+	C      *Clause
+	seen   bool
 }
 
 type LetDef struct {
@@ -81,6 +91,7 @@ func NewContractSet() *ContractSet {
 	return &ContractSet{Funcs: map[string]*Contract{}, Specs: map[string]*SpecFunc{}, Imports: map[string]map[string]string{}, Expect: map[string]int{}}
 }
 
+var assertRe = regexp.MustCompile(`^at\s+([^\s#]+)#(\d+)\s+(.*)$`)
 var labelRe = regexp.MustCompile(`^([A-Za-z_][A-Za-z0-9_.\-]*):(\s|$)`)
 var specFuncRe = regexp.MustCompile(`^spec\s+(func|ghost)\s+([A-Za-z_][A-Za-z0-9_]*)\s*\((.*?)\)\s*([^=]*?)\s*(=\s*(.*))?$`)
 
@@ -239,6 +250,15 @@ func (cs *ContractSet) LoadFile(path, pkg string, trusted bool) error {
 					return
 				}
 				cur.Lets = append(cur.Lets, LetDef{strings.TrimSpace(rest[:i]), mk(rest[i+1:], p.line, false)})
+			case "assert":
+				// assert at <callee>#<k> [label:] expr
+				m := assertRe.FindStringSubmatch(rest)
+				if m == nil {
+					fail(p.line, "bad assert clause (want: assert at callee#k expr)")
+					return
+				}
+				k, _ := strconv.Atoi(m[2])
+				cur.Asserts = append(cur.Asserts, &AssertAt{Callee: m[1], Ord: k, C: mk(m[3], p.line, true)})
 			case "decreases":
 				cur.Decreases = mk(rest, p.line, false)
 			case "loop":
